@@ -665,8 +665,8 @@ def apply():
     N.uint = N.uint8 = N.uint32 = N.uint64 = _ScalarType('uint64', 'i')
     N.bool_ = _ScalarType('bool_', 'b')
     N.number = (int, float, SymNum)
-    N.floating = (float,)
-    N.integer = (int,)
+    N.floating = _ScalarType('floating', 'f')
+    N.integer = N.signedinteger = _ScalarType('integer', 'i')
     N.nan, N.inf, N.pi, N.e = _np.nan, _np.inf, _np.pi, _np.e
     N.newaxis = None
     N.finfo, N.iinfo = _np.finfo, _np.iinfo
